@@ -376,7 +376,7 @@ def correspond(model_ok, res):
     from luqum.auto_head_tail import auto_head_tail as aht
     r = lib.rng("C13")
     quick = lib.tier() == "quick"
-    n_rand, n_gram = (160, 260) if quick else (1600, 2600)
+    n_rand, n_gram = (240, 600) if quick else (2400, 6000)
     g_layout = gentree.Gen(r, T, layout=0.35, odd=0.2, positions=0.2)
     g_free = gentree.Gen(r, T, layout=0.0, odd=0.1)
     gg = GrammarGen(r, T)
@@ -500,11 +500,13 @@ SPEC = {
     "model_targets": ["model/AutoHeadTail.vo", "model/TreeEq.vo"],
     "module": "C13",
     "theorems": ["C13_fails_exactly", "C13_equal_to_input", "C13_only_fills_empty", "C13_idempotent",
-                 "C13_roundtrip_refuted", "C13_roundtrip_noF4_refuted"],
+                 "C13_roundtrip_refuted", "C13_roundtrip_noF4_refuted", "C13_roundtrip_partial"],
     "correspond": correspond,
-    "statement": "auto_head_tail returns a tree equal to its input in which only empty heads/tails became one "
-                 "blank, is idempotent and leaves its argument untouched; for layout-free trees the grammar can "
-                 "express the printed result parses back to the input (refuted: F4, F15; partial proved)",
+    "statement": "auto_head_tail raises exactly on an AND/OR/Bool operation without operand; otherwise its result "
+                 "equals the input, only empty heads/tails became one blank, it is idempotent and leaves its "
+                 "argument untouched (snapshot, implementation only); for layout-free trees the grammar can express "
+                 "the printed result parses back to the input: refuted (F4, F15), proved for flat AND/OR of plain "
+                 "words, the guarded statement is validated by correspondence only",
     "trusted_base": [
         "Coq 8.16.1 kernel (vm_compute used for table facts, witnesses and correspondence; no native_compute)",
         "no axioms (Print Assumptions: closed under the global context)",
